@@ -8,6 +8,7 @@ import json, os, re, collections
 from concurrent.futures import ThreadPoolExecutor
 import vlib
 from vlib import coq_list
+import e2e
 
 H = os.path.join(os.path.dirname(os.path.abspath(__file__)), "harness")
 
@@ -87,6 +88,242 @@ def safe_first(name):
     return bool(c) and (c.isalnum() and c[0] < 128 or c in b"._/" or c[0] >= 128)
 
 
+def strl(xs):
+    return "(@nil str)" if not xs else coq_list(xs)
+
+
+def gofile_term(f):
+    decls = []
+    for d in f["decls"]:
+        specs = ["{| vs_names := %s; vs_doc := %s |}" % (strl([sb(n) for n in sp["names"]]), strl([sb(c) for c in sp.get("doc") or []]))
+                 for sp in d["specs"]]
+        decls.append("{| vd_doc := %s; vd_specs := %s |}" % (strl([sb(c) for c in d.get("doc") or []]), coq_list(specs)))
+    return "{| gf_embed := %s; gf_decls := %s |}" % ("true" if f["imp"] else "false", coq_list(decls))
+
+
+E2E_MAIN = '''package main
+
+import (
+	"embed"
+
+	"verifprog/sub"
+)
+
+//go:embed data/greeting.txt
+var a []byte
+
+//go:embed data/greeting.txt
+var b []byte
+
+//go:embed "data/greeting.txt"
+var c []byte
+
+//go:embed data/greet*.txt
+var d []byte
+
+//go:embed data/greeting.txt
+var s string
+
+//go:embed data/other.txt
+var o []byte
+
+//go:embed data
+var fsys embed.FS
+
+//go:embed all:data
+var fsall embed.FS
+
+func show(tag string) {
+	println(tag, "a="+string(a), "b="+string(b), "c="+string(c), "d="+string(d), "s="+s, "o="+string(o))
+}
+
+func main() {
+	show("init")
+	a[0] = 'X'
+	c[len(c)-1] = 'Y'
+	show("after-write")
+	println("distinct", &a[0] != &b[0], &a[0] != &c[0], &a[0] != &d[0], &b[0] != &c[0], &b[0] != &d[0], &c[0] != &d[0], &a[0] != &o[0])
+	fb, err := fsys.ReadFile("data/greeting.txt")
+	println("fs", string(fb), err == nil)
+	fb[0] = 'Z'
+	fb2, _ := fsys.ReadFile("data/greeting.txt")
+	println("fs-again", string(fb2))
+	es, _ := fsys.ReadDir("data")
+	for _, e := range es {
+		println("fs-entry", e.Name(), e.IsDir())
+	}
+	es, _ = fsall.ReadDir("data")
+	for _, e := range es {
+		println("fsall-entry", e.Name(), e.IsDir())
+	}
+	_, err = fsys.ReadFile("data/.hidden")
+	println("fs-hidden-absent", err != nil)
+	hb, err := fsall.ReadFile("data/.hidden")
+	println("fsall-hidden", string(hb), err == nil)
+	sub.Run()
+	show("end")
+}
+'''
+
+E2E_SUB = '''package sub
+
+import _ "embed"
+
+//go:embed x.txt
+var P []byte
+
+//go:embed x.txt
+var Q []byte
+
+//go:embed x.txt
+var S string
+
+func Run() {
+	println("sub-init", string(P), string(Q), S)
+	Q[0] = '#'
+	println("sub-after", string(P), string(Q), S, &P[0] != &Q[0])
+}
+'''
+
+
+def e2e_embed(ck):
+    """compile one program with several go:embed variables of the same file with llgo (from the
+    working tree) and with the reference toolchain, run both, return (status, llgo_out, go_out, log)"""
+    rng = ck.rng.__class__(ck.seed * 31 + 16)
+    word = lambda: "".join(rng.choice("abcdefghijklmnopqrstuvwxyz ,") for _ in range(rng.randint(3, 14)))
+    d = os.path.join(ck.work, "e2eprog")
+    e2e.write_module(d, {"main.go": E2E_MAIN, "sub/sub.go": E2E_SUB, "sub/x.txt": "x" + word(),
+                         "data/greeting.txt": "g" + word(), "data/other.txt": "o" + word(),
+                         "data/.hidden": "h" + word(), "data/_skip.txt": "u" + word(), "data/more/z.txt": "z" + word()})
+    rc, out = e2e.go_build(d, os.path.join(d, "prog_go"))
+    if rc != 0:
+        return "go-build-failed", "", "", out
+    _, go_o, go_e = e2e.run_plain(os.path.join(d, "prog_go"), timeout=60)
+    L = e2e.LLGo(ck)
+    if not L.ok:
+        return "llgo-build-failed", "", go_e, L.buildlog
+    rc, out = L.build(d, os.path.join(d, "prog_llgo"))
+    if rc != 0:
+        return "llgo-compile-failed", "", go_e, out
+    rc, ll_o, ll_e = L.run_bin(os.path.join(d, "prog_llgo"), timeout=60)
+    return "ran", ll_o + ll_e, go_o + go_e, "rc=%d" % rc
+
+
+IR_SRC = '''package foo
+
+import "embed"
+
+//go:embed data/g.txt
+var a []byte
+
+//go:embed data/g.txt
+var b []byte
+
+//go:embed "data/g.txt"
+var c []byte
+
+//go:embed data/g*.txt
+var d []byte
+
+//go:embed data/g.txt
+var s string
+
+//go:embed data/o.txt
+var o []byte
+
+//go:embed data/o.txt
+var o2 []byte
+
+//go:embed data
+var fsys embed.FS
+
+func use() int { return len(a) + len(b) + len(c) + len(d) + len(s) + len(o) + len(o2) }
+'''
+IR_BYTES = {"a": "data/g.txt", "b": "data/g.txt", "c": "data/g.txt", "d": "data/g.txt", "o": "data/o.txt", "o2": "data/o.txt"}
+
+
+def ll_unescape(s):
+    out, i = bytearray(), 0
+    while i < len(s):
+        if s[i] == "\\" and i + 2 < len(s) + 1 and re.match(r"[0-9A-Fa-f]{2}", s[i + 1:i + 3]):
+            out.append(int(s[i + 1:i + 3], 16))
+            i += 3
+        else:
+            out += s[i].encode("latin-1", "replace")
+            i += 1
+    return bytes(out)
+
+
+def fs_table(files):
+    """the embed.FS table for {name: bytes}: files and parent directories in (dir, elem) order"""
+    ent = {}
+    for n, d in files.items():
+        ent[n] = d
+        parts = n.split("/")
+        for k in range(1, len(parts)):
+            ent["/".join(parts[:k]) + "/"] = None
+
+    def key(n):
+        n = n[:-1] if n.endswith("/") else n
+        return (n.rsplit("/", 1)[0], n.rsplit("/", 1)[1]) if "/" in n else (".", n)
+    return [(n, ent[n]) for n in sorted(ent, key=lambda n: tuple(x.encode() for x in key(n)))]
+
+
+def ir_embed(ck):
+    """compile a package with several go:embed variables of the same file through the real cl.NewPackage
+    (go test -overlay in /repo/cl, LLVM linked) and return (status, findings, detail)"""
+    rng = ck.rng.__class__(ck.seed * 131 + 16)
+    blob = lambda tag: tag + "".join(rng.choice(["a", "b", "z", " ", "\"", "\\", "\n", "\u00e9", "%", "\x01"]) for _ in range(rng.randint(2, 12)))
+    files = {"data/g.txt": blob("G"), "data/o.txt": blob("O")}
+    inp, outp = os.path.join(ck.work, "ir_in.json"), os.path.join(ck.work, "ir_out.json")
+    json.dump({"files": files, "src": IR_SRC}, open(inp, "w"))
+    env = e2e.tc_env(os.path.join(ck.work, "xdg_ir"), {"VERIF_IN": inp, "VERIF_OUT": outp})
+    rc, log = ck.go_test_overlay("cl", {"zz_verif_test.go": os.path.join(H, "clembed_verif_test.go")}, tags="llvm14,verif", env=env,
+                                 extra_overlay={os.path.join(vlib.REPO, "ssa", "z_verif_opaque.go"):
+                                                os.path.join(vlib.ROOT, "toolchain", "src", "z_verif_opaque.go")}, timeout=1500)
+    if rc != 0 or not os.path.exists(outp):
+        return "harness-failed", [], log[-2000:]
+    ir = json.load(open(outp))["ir"]
+    want = {k: v.encode("utf-8") for k, v in files.items()}
+    consts = {m.group(1): (m.group(2), ll_unescape(m.group(4)))
+              for m in re.finditer(r'^@(\d+) = private (?:unnamed_addr )?(global|constant) \[(\d+) x i8\] c"(.*)"(?:, align \d+)?$', ir, re.M)}
+    findings, backing = [], {}
+    for var, fname in IR_BYTES.items():
+        m = re.search(r'^@foo\.%s = global %%"[^"]*\.Slice" \{ ptr @(\d+), i64 (\d+), i64 (\d+) \}' % re.escape(var), ir, re.M)
+        if not m:
+            findings.append(("embed-ir-bytes-differ", "no constant slice initialiser for []byte variable %s" % var))
+            continue
+        sym, ln, cp = m.group(1), int(m.group(2)), int(m.group(3))
+        backing[var] = sym
+        kind, data = consts.get(sym, ("?", b""))
+        if data != want[fname] or ln != len(data) or cp != len(data):
+            findings.append(("embed-ir-bytes-differ", "[]byte variable %s: %r len %d cap %d, file %s holds %r" % (var, data, ln, cp, fname, want[fname])))
+        if kind != "global":
+            findings.append(("embed-ir-bytes-not-writable", "backing store @%s of []byte variable %s is %s" % (sym, var, kind)))
+        uses = len(re.findall(r"@%s\b" % sym, ir)) - 1          # minus its definition
+        if uses != 1:
+            findings.append(("embed-bytes-vars-share-backing-array",
+                             "backing store @%s of []byte variable %s is referenced %d times in the module" % (sym, var, uses)))
+    vs = sorted(backing)
+    for i in range(len(vs)):
+        for j in range(i + 1, len(vs)):
+            if backing[vs[i]] == backing[vs[j]]:
+                findings.append(("embed-bytes-vars-share-backing-array",
+                                 "[]byte variables %s and %s (file %s) are initialised with the same backing store @%s"
+                                 % (vs[i], vs[j], IR_BYTES[vs[i]], backing[vs[i]])))
+    m = re.search(r'^@foo\.s = global %"[^"]*\.String" \{ ptr @(\d+), i64 (\d+) \}', ir, re.M)
+    if not m or consts.get(m.group(1), ("", b""))[1] != want["data/g.txt"] or int(m.group(2)) != len(want["data/g.txt"]):
+        findings.append(("embed-ir-string-differs", "string variable s does not hold the bytes of data/g.txt"))
+    # the embed.FS table stored by foo.init: (name, data) pairs in order
+    stores = re.findall(r'store %"[^"]*\.String" (zeroinitializer|\{ ptr @(\d+), i64 (\d+) \}), ptr %\d+', ir)
+    vals = [None if z == "zeroinitializer" else consts.get(sym, ("", b""))[1] for z, sym, _ in stores]
+    table = [(vals[i].decode("utf-8", "replace") if vals[i] is not None else "", vals[i + 1]) for i in range(0, len(vals) - 1, 2)]
+    exp = fs_table(want)
+    if table != exp:
+        findings.append(("embed-ir-fs-table-differs", "embed.FS table in the IR %r, expected %r" % (table, exp)))
+    return "ok", findings, {"backing": backing, "files": {k: v.decode("utf-8") for k, v in want.items()}}
+
+
 def run(ck):
     ck.trusted = ["Coq 8.16.1 kernel (coqc, vm_compute)", "Go overlay harness props/C16/harness/embed_verif_test.go",
                   "hand-written model coq/theories/C16/Model.v tied by correspondence",
@@ -100,12 +337,17 @@ def run(ck):
     ck.coq_build("C16")
     ck.coq_props("LLGoV.C16.Props", "theories/C16/Props.v")
 
+    e2e_pool = ThreadPoolExecutor(2)
+    ir_future = e2e_pool.submit(ir_embed, ck)
+    e2e_future = e2e_pool.submit(e2e_embed, ck) if ck.tier == "thorough" or os.environ.get("VERIF_C16_E2E") else None
+
     n, nd = {"quick": (500, 400), "thorough": (9000, 6000)}.get(ck.tier, (500, 400))
+    nm = {"quick": 60, "thorough": 600}.get(ck.tier, 60)
     trees = os.path.join(ck.work, "trees")
     os.makedirs(trees, exist_ok=True)
     out = os.path.join(ck.work, "embed.jsonl")
     rc, log = ck.go_test_overlay("internal/goembed", {"zz_verif_test.go": os.path.join(H, "embed_verif_test.go")},
-                                 env={"VERIF_OUT": out, "VERIF_N": str(n), "VERIF_ND": str(nd), "VERIF_TREES": trees})
+                                 env={"VERIF_OUT": out, "VERIF_N": str(n), "VERIF_ND": str(nd), "VERIF_NM": str(nm), "VERIF_TREES": trees})
     if rc != 0 or not os.path.exists(out):
         ck.correspondence_broken("harness:internal/goembed", log[-2500:])
         return ck.finish()
@@ -200,6 +442,35 @@ def run(ck):
             "reads %r" % rep["llgo"]["patterns"] if l_acc else ("rejects the line" if has else "sees no directive"),
             "reads %r" % rep["go"]["patterns"] if g_acc else "does not embed"), rep)
 
+    # ---------- multi-file packages: LoadDirectives vs `go build` ----------
+    rc, bout = vlib.sh(["go", "build", "-gcflags=-e", "./..."], cwd=os.path.join(trees, "mf", "m"), env=vlib.goenv(), timeout=900)
+    blocks, cur = {}, None
+    for line in bout.splitlines():
+        m = re.match(r"# vm/(mf\d+)", line)
+        if m:
+            cur = m.group(1)
+            blocks[cur] = []
+        elif cur:
+            blocks[cur].append(line.strip())
+    if recs["mf"] and rc != 0 and not blocks:
+        ck.correspondence_broken("go-build:mf", bout[-1500:])
+    for r in recs["mf"]:
+        gmsgs = blocks.get(r["id"])
+        l_rej, g_rej = r["eclass"] != 0, gmsgs is not None
+        classes["mf:llgo=%d,go=%s" % (r["eclass"], "rej" if g_rej else "ok")] += 1
+        if l_rej == g_rej:
+            agree3 += 1
+            continue
+        rep = {"id": r["id"], "order": r["order"], "files": [{"name": f["name"], "imports_embed": f["imp"], "decls": f["decls"]} for f in r["mfiles"]],
+               "llgo": {"err": r.get("err"), "vars": [v["name"] for v in r.get("vars", [])]}, "go_build": gmsgs}
+        if g_rej and any("only allowed in Go files that import" in m for m in gmsgs):
+            ck.violation("embed-directive-without-import-accepted",
+                         "go build rejects (%s) but LoadDirectives accepts the package" % gmsgs[0], rep)
+        elif g_rej:
+            ck.violation("embed-loaddirectives-accepts-what-go-rejects", "go build: %s; LoadDirectives accepts" % gmsgs[0], rep)
+        else:
+            ck.violation("embed-loaddirectives-rejects-what-go-builds", "LoadDirectives: %s; go build accepts the package" % r.get("err"), rep)
+
     # ---------- model vs implementation, evaluated inside Coq ----------
     hdr = "From LLGoV Require Import C16.Model.\nLocal Open Scope N_scope.\n"
     total = 0
@@ -231,6 +502,15 @@ def run(ck):
     fsr = recs["fs"]
     compare("fs_entries", ["(%s, %s)" % (files_term(r.get("in", [])), entries_term(r.get("files", []))) for r in fsr],
             "fs_entries", "entries_eqb", fsr, shard=60)
+    mfr = recs["mf"]
+    compare("load_directives",
+            ["((%s, %s), %s)" % (tree_term(r["tree"]), coq_list([gofile_term(f) for f in r["mfiles"]]),
+                                 ("(@Err varmap %d)" % r["eclass"]) if r["eclass"] else
+                                 "(@Ok varmap %s)" % ("(@nil (str * list (str * str)))" if not r.get("vars") else
+                                                      coq_list(["(%s, %s)" % (sb(v["name"]), files_term(v["files"]) if v["files"] else "(@nil (str * str))")
+                                                                for v in r["vars"]])))
+             for r in mfr],
+            "(fun x => load_directives (fst x) (snd x))", "vres_eqb", mfr, shard=20)
     for lr in recs["letters"]:
         pairs = list(zip(lr["runes"], lr["letter"]))
         compare("is_letter", ["(%d, %s)" % (c, "true" if b else "false") for c, b in pairs], "is_letter", "Bool.eqb",
@@ -245,6 +525,39 @@ def run(ck):
                 first = raw[bad[0]]
                 first = {k: first[k] for k in first if k != "tree"} | ({"tree": first["tree"]} if "tree" in first else {})
                 ck.correspondence_broken("C16.Model/" + kind, {"n_mismatch": len(bad), "first": first})
+
+    # ---------- end to end: every []byte variable has its own backing store ----------
+    istatus, ifind, idetail = ir_future.result()
+    classes["ir:" + istatus] += 1
+    if istatus != "ok":
+        ck.correspondence_broken("cl-embed-ir:" + istatus, idetail)
+    else:
+        total += len(IR_BYTES) + 2
+        for key, what in ifind:
+            ck.violation(key, what, {"source": IR_SRC, "detail": idetail, "what": what})
+    status, ll_out, go_out, elog = e2e_future.result() if e2e_future else ("skipped", "", "", "")
+    e2e_pool.shutdown()
+    classes["e2e:" + status] += 1
+    if status == "skipped":
+        pass
+    elif status != "ran":
+        ck.correspondence_broken("e2e-embed:" + status, elog[-2000:])
+    else:
+        total += 1
+        keep = lambda o: [l for l in o.splitlines() if l.split(" ")[0] in (
+            "init", "after-write", "distinct", "fs", "fs-again", "fs-entry", "fsall-entry", "fs-hidden-absent", "fsall-hidden",
+            "sub-init", "sub-after", "end")]
+        lo, go_ = keep(ll_out), keep(go_out)
+        if lo != go_:
+            rep = {"llgo": lo, "go": go_, "program": "props/C16/check.py E2E_MAIN/E2E_SUB", "raw_llgo": ll_out[-1500:]}
+            shared = any(l.startswith("distinct") and "false" in l for l in lo) or any(l.startswith("sub-after") and l.endswith("false") for l in lo)
+            if shared:
+                ck.violation("embed-bytes-vars-share-backing-array",
+                             "two []byte go:embed variables of one file share their backing array in the llgo-built program (a write through one shows in the other)", rep)
+            else:
+                ck.violation("embed-e2e-output-differs", "program with go:embed string/[]byte/FS variables prints differently when built by llgo and by go", rep)
+        else:
+            agree3 += 1
 
     # the refuted-theorem witnesses, replayed on the real code by the harness (kind=witness)
     for w in recs["witness"]:
